@@ -166,26 +166,40 @@ func runSolver(name string, file string, timeout time.Duration, extra ...string)
 
 // runSolverCtx: as runSolver; the solver is killed when parent is cancelled (status "cancelled")
 func runSolverCtx(parent context.Context, name string, file string, timeout time.Duration, extra ...string) SolverRes {
-	args := append([]string{}, solverCmds[name][1:]...)
+	// The budget is CPU time (prlimit --cpu), with a wall-clock limit four times as long: a proof that needs a few
+	// seconds of solver time must not turn into an alarm because the machine is busy (other checks, other solvers of
+	// the same portfolio). On an idle machine both limits coincide in effect.
+	wall := 4*timeout + 3*time.Second
+	args := []string{fmt.Sprintf("--cpu=%d", int(timeout.Seconds())+1), solverCmds[name][0]}
+	args = append(args, solverCmds[name][1:]...)
 	switch name {
 	case "z3", "z3-new", "z3-new-mbqi", "z3-ematch", "z3-new-noext":
-		args = append(args, fmt.Sprintf("-T:%d", int(timeout.Seconds())+1))
+		args = append(args, fmt.Sprintf("-T:%d", int(wall.Seconds())))
 	case "cvc5":
-		args = append(args, fmt.Sprintf("--tlimit=%d", timeout.Milliseconds()))
+		args = append(args, fmt.Sprintf("--tlimit=%d", wall.Milliseconds()))
 	}
 	args = append(args, extra...)
 	args = append(args, file)
-	ctx, cancel := context.WithTimeout(parent, timeout+3*time.Second)
+	ctx, cancel := context.WithTimeout(parent, wall+2*time.Second)
 	defer cancel()
 	start := time.Now()
-	cmd := exec.CommandContext(ctx, solverCmds[name][0], args...)
+	prog := "prlimit"
+	if _, err := exec.LookPath("prlimit"); err != nil {
+		// no CPU limit available: the wall-clock limit alone (as long as the CPU budget)
+		prog, args = args[1], args[2:]
+	}
+	cmd := exec.CommandContext(ctx, prog, args...)
 	var out bytes.Buffer
 	cmd.Stdout = &out
 	cmd.Stderr = &out
-	_ = cmd.Run()
+	runErr := cmd.Run()
 	secs := time.Since(start).Seconds()
 	o := out.String()
 	st := "error"
+	killedByLimit := false
+	if ee, ok := runErr.(*exec.ExitError); ok && ee.ProcessState != nil && !ee.ProcessState.Exited() {
+		killedByLimit = true // terminated by a signal: the CPU limit (SIGXCPU / SIGKILL) or the wall-clock context
+	}
 	first := ""
 	for _, ln := range strings.Split(o, "\n") {
 		ln = strings.TrimSpace(ln)
@@ -203,7 +217,7 @@ func runSolverCtx(parent context.Context, name string, file string, timeout time
 		st = "unknown"
 	case parent.Err() != nil:
 		st = "cancelled"
-	case strings.Contains(o, "timeout") || ctx.Err() != nil:
+	case strings.Contains(o, "timeout") || ctx.Err() != nil || killedByLimit:
 		st = "timeout"
 	}
 	return SolverRes{Status: st, Solver: name, Secs: secs, Out: o}
